@@ -22,7 +22,7 @@ Rounding, convergence and accuracy of the iterative solvers, procrustes optimali
 (harness/corr/c12_residue.cpp) — partial.
 
 The full-strength recomposition of the 2-D `sansScaling` / `removeScaling` is in `Props/C12Recompose.lean`
-(it does not hold on a tree where `Matrix33::rotate` post-multiplies the translation: see `Props/C12Defect.lean`).
+(it did not hold before /repo commit ec5bcdd, where `Matrix33::rotate` post-multiplied the translation).
 -/
 namespace ImathVerif.C12
 open ImathVerif ImathVerif.SHRT ImathVerif.Jacobi Matrix
@@ -260,7 +260,7 @@ theorem M33_sansScalingExc {tmin tmax : α} {sqrt sin cos : α → α} {atan2 : 
 /- FULL statement (Props/C12Recompose.lean, `M33_sansScaling_recompose`):
      (sansScaling m).toMat = shearH2 r.shr * linH2 r.m * transH2 (m.x20, m.x21)      -- shear * rotation * translation
    It is FALSE on a tree whose `sansScaling` recomposes with `M.translate; M.rotate; M.shear` because
-   `Matrix33::rotate` post-multiplies (Props/C12Defect.lean: `M33_sansScaling_recompose_false`).  What holds
+   `Matrix33::rotate` post-multiplies (the state of /repo before commit ec5bcdd).  What holds
    regardless: the linear block is shear * rotation, the result is affine, and the whole statement holds when the
    translation is zero. -/
 theorem M33_sansScaling_recompose_partial {tmin tmax : α} {sqrt sin cos : α → α} {atan2 : α → α → α}
